@@ -519,3 +519,118 @@ func harnessC03() {
 	vCover("killed")
 	vDone()
 }
+
+// ---------------------------------------------------------------------------------------------- C04: Kill
+// plugin shutdown behaviour: 0 exits at once when asked; 1 exits after a symbolic clean-up time d; 2 acknowledges the
+// request but never exits; 3 frozen (SIGSTOP) before Kill; 4 already crashed before Kill
+func wBehave(w *wWorld, behaviour int, d int64) {
+	inner := w.p.main
+	switch behaviour {
+	case 1:
+		w.p.main = func() { inner(); vSleepUntil(vNow() + d) }
+	case 2:
+		w.p.main = func() { inner(); <-wNever }
+	}
+}
+
+func harnessC04world() {
+	var o wOpts
+	o.grpc = vChoice(2) == 1
+	o.allowed = 1
+	o.cmd = vChoice(2) == 1
+	behaviour := vChoice(5)
+	d := vNondetTime("d")
+	vAssume(d <= 10*sec)
+	w := wSetup(o)
+	c, p := w.c, w.p
+	wBehave(w, behaviour, d)
+	cp, err := c.Client()
+	vAssume(err == nil)
+	raw, err := cp.Dispense("test")
+	vAssume(err == nil)
+	_, err = raw.(wStub).Whoami()
+	vAssume(err == nil)
+	vCover("connected")
+	vSleepUntil(10 * sec)
+	switch behaviour {
+	case 3:
+		p.frozen = true
+	case 4:
+		p.die()
+		vSleepUntil(12 * sec)
+	}
+	twice := vChoice(2) == 1
+	// optionally a second Kill from another goroutine, at a symbolic instant while the first may still be in progress
+	overlap := make(chan struct{})
+	if vChoice(2) == 1 {
+		vCover("overlapping-kill")
+		t2 := vNondetTime("t2")
+		vAssume(t2 >= 10*sec && t2 <= 16*sec)
+		go func() {
+			vSleepUntil(t2)
+			r2 := wTimed(func() error { c.Kill(); return nil })
+			vAssert(!r2.panicked, "C04: an overlapping Kill does not panic")
+			vAssert(p.isDead, "C04: after an overlapping Kill returns the plugin process has exited")
+			vAssert(c.Exited(), "C04: after an overlapping Kill returns the client reports the plugin as exited")
+			close(overlap)
+		}()
+	} else {
+		close(overlap)
+	}
+	r := wTimed(func() error { c.Kill(); return nil })
+	vAssert(!r.panicked, "C04: Kill does not panic")
+	vAssert(p.isDead, "C04: after Kill the plugin process has exited")
+	vAssert(c.Exited(), "C04: after Kill the client reports the plugin as exited")
+	bound := 5 * sec // shutdown-request deadline 2 s + grace period 2 s + slack
+	if behaviour == 3 && !o.grpc {
+		bound = 43 * sec // net/rpc has no deadline of its own: bounded by yamux's keep-alive
+	}
+	vAssert(r.took <= bound, "C04: Kill returns within a bounded time")
+	switch {
+	case behaviour == 0 || (behaviour == 1 && d < 2*sec):
+		vCover("graceful")
+		vAssert(p.killed == 0, "C04: a plugin that exits within the grace period is not force-killed")
+	case behaviour == 1 && d > 2*sec, behaviour == 2, behaviour == 3:
+		vCover("forced")
+		vAssert(p.killed >= 1, "C04: a plugin that does not exit is force-killed")
+	case behaviour == 4:
+		vCover("already-dead")
+	}
+	if twice {
+		r = wTimed(func() error { c.Kill(); return nil })
+		vAssert(!r.panicked && r.took <= sec, "C04: a repeated Kill returns at once without panic")
+		vCover("repeated")
+	}
+	<-overlap
+	vDone()
+}
+
+// CleanupClients over two managed clients in different states
+func harnessC04cleanup() {
+	o1 := wOpts{grpc: vChoice(2) == 1, allowed: 1}
+	o2 := wOpts{grpc: vChoice(2) == 1, allowed: 1, cmd: true}
+	w1, w2 := wSetup(o1), wSetup(o2)
+	w1.c.config.Managed, w2.c.config.Managed = true, true
+	managedClients = append(managedClients, w1.c, w2.c)
+	b2 := vChoice(3) // second plugin: 0 healthy, 2 ignores the request, 5 never started
+	wBehave(w2, b2, 0)
+	_, err := w1.c.Client()
+	vAssert(err == nil, "C04: first managed client connects")
+	if b2 != 1 {
+		_, err = w2.c.Client()
+		if err != nil {
+			vRecord("err2", err.Error())
+		}
+		vAssert(err == nil, "C04: second managed client connects")
+	}
+	r := wTimed(func() error { CleanupClients(); return nil })
+	vAssert(!r.panicked && r.took <= 5*sec, "C04: CleanupClients returns in bounded time without panic")
+	vAssert(w1.p.isDead && w1.c.Exited(), "C04: CleanupClients ends the first managed plugin")
+	if b2 != 1 {
+		vAssert(w2.p.isDead && w2.c.Exited(), "C04: CleanupClients ends the second managed plugin")
+	} else {
+		vAssert(w2.p.started == 0, "C04: CleanupClients does not launch a client that was never started")
+	}
+	vCover("cleaned-up")
+	vDone()
+}
